@@ -971,7 +971,8 @@ class _Desugar(ast.NodeTransformer):
             else:
                 out.extend(rep)
                 self.count += 1
-        return self._unroll(self._accumulate(self._devirtualise(out)))
+        return self._walrus(self._unroll(self._accumulate(
+            self._devirtualise(out))))
 
     def generic_visit(self, node):
         for name in _BLOCKS:
@@ -1087,6 +1088,44 @@ class _Desugar(ast.NodeTransformer):
             i += 1
         return out
 
+    def _walrus(self, stmts):
+        """if (m := f(x)) is None: ...   ->   m = f(x); if m is None: ...
+        (when the assignment expression is the first thing the test
+        evaluates)."""
+        out = []
+        for st in stmts:
+            if isinstance(st, ast.If):
+                while True:
+                    ne = self._first_named(st.test)
+                    if ne is None:
+                        break
+                    out.append(ast.copy_location(ast.Assign(
+                        targets=[ast.Name(id=ne.target.id, ctx=ast.Store())],
+                        value=ne.value, lineno=st.lineno), st))
+                    new = ast.copy_location(
+                        ast.Name(id=ne.target.id, ctx=ast.Load()), ne)
+                    st.test = new if st.test is ne else \
+                        _Replace(ne, new).visit(st.test)
+                    self.count += 1
+            out.append(st)
+        return out
+
+    @staticmethod
+    def _first_named(e):
+        while True:
+            if isinstance(e, ast.NamedExpr):
+                return e
+            if isinstance(e, ast.BoolOp):
+                e = e.values[0]
+            elif isinstance(e, ast.UnaryOp):
+                e = e.operand
+            elif isinstance(e, ast.Compare):
+                e = e.left
+            elif isinstance(e, (ast.Attribute, ast.Subscript)):
+                e = e.value
+            else:
+                return None
+
     def _unroll(self, stmts):
         """for x in ('A', 'B', 'C'): body   (a literal tuple / list of
         constants, or a module-level name bound once to one; at most 6
@@ -1193,13 +1232,114 @@ def desugar(trees):
     return n
 
 
+def module_constants(tree):
+    """{name: value} of module-level names bound exactly once (anywhere in
+    the module, including `global` rebinding) to a literal: constants,
+    tuples / lists / sets of literals or plain names (classes), string
+    concatenation and %-formatting of literals."""
+    def literal(e):
+        if isinstance(e, ast.Constant):
+            return True
+        if isinstance(e, (ast.Tuple, ast.List, ast.Set)):
+            return all(literal(x) or isinstance(x, (ast.Name, ast.Attribute))
+                       for x in e.elts)
+        if isinstance(e, ast.BinOp) and isinstance(e.op, (ast.Add, ast.Mod)):
+            return literal(e.left) and literal(e.right)
+        if isinstance(e, ast.JoinedStr):
+            return all(isinstance(v, ast.Constant) for v in e.values)
+        return False
+    count = {}
+    for st in tree.body:
+        if isinstance(st, (ast.FunctionDef, ast.AsyncFunctionDef,
+                           ast.ClassDef)):
+            count[st.name] = count.get(st.name, 0) + 1
+            continue
+        for x in ast.walk(st):
+            if isinstance(x, ast.Name) and isinstance(x.ctx, (ast.Store,
+                                                              ast.Del)):
+                count[x.id] = count.get(x.id, 0) + 1
+            elif isinstance(x, ast.alias):
+                nm = (x.asname or x.name).split('.')[0]
+                count[nm] = count.get(nm, 0) + 1
+    for x in ast.walk(tree):
+        if isinstance(x, (ast.Global, ast.Nonlocal)):
+            for nm in x.names:
+                count[nm] = count.get(nm, 0) + 2
+    out = {}
+    for st in tree.body:
+        if isinstance(st, ast.Assign) and len(st.targets) == 1 and \
+                isinstance(st.targets[0], ast.Name) and \
+                count.get(st.targets[0].id) == 1 and literal(st.value):
+            out[st.targets[0].id] = st.value
+    return out
+
+
+def census_constants(trees):
+    out = set()
+    for path, tree in trees.items():
+        mod = modname_of(path)
+        for name in module_constants(tree):
+            out.add('const:%s.%s' % (mod, name))
+    return out
+
+
+def inline_new_constants(trees, known):
+    """A literal moved to a module-level constant that the reference census
+    does not know is written back where it is used (same module only)."""
+    done = []
+    for path, tree in trees.items():
+        mod = modname_of(path)
+        if not any(k.startswith(mod + '.') for k in known):
+            continue
+        consts = {n: v for n, v in module_constants(tree).items()
+                  if 'const:%s.%s' % (mod, n) not in known and
+                  not n.startswith('__')}
+        if not consts:
+            continue
+
+        class T(ast.NodeTransformer):
+            def __init__(self):
+                self.shadow = [set()]
+
+            def _scope(self, node):
+                bound = {a.arg for a in ast.walk(node.args)
+                         if isinstance(a, ast.arg)}
+                for x in ast.walk(node):
+                    if isinstance(x, ast.Name) and isinstance(
+                            x.ctx, (ast.Store, ast.Del)):
+                        bound.add(x.id)
+                self.shadow.append(self.shadow[-1] | bound)
+                self.generic_visit(node)
+                self.shadow.pop()
+                return node
+
+            visit_FunctionDef = _scope
+            visit_AsyncFunctionDef = _scope
+            visit_Lambda = _scope
+
+            def visit_Name(self, node):
+                if isinstance(node.ctx, ast.Load) and node.id in consts \
+                        and node.id not in self.shadow[-1]:
+                    used.add(node.id)
+                    return ast.copy_location(copy.deepcopy(consts[node.id]),
+                                             node)
+                return node
+        used = set()
+        T().visit(tree)
+        ast.fix_missing_locations(tree)
+        for n in sorted(used):
+            done.append(('const:%s.%s' % (mod, n), 1, False))
+    return done
+
+
 def normalise(trees, known=None):
     """Inline the helpers that are not in the census; mutates `trees`
     ({path: ast.Module}); returns the log [(qname, sites, removed)]."""
     if known is None:
         known = baseline()
+    clog = inline_new_constants(trees, known)
     n = desugar(trees)
-    log = Inliner(trees, known).run()
+    log = clog + Inliner(trees, known).run()
     if n:
         log.append(('<return any/all as loop, calls through a local>', n, False))
     return log
